@@ -898,7 +898,9 @@ pub struct HamInfo<'a> {
 
 impl<'a> PartialEq for HamInfo<'a> {
     fn eq(&self, other: &Self) -> bool {
-        self.edges == other.edges && self.transverse == other.transverse
+        self.edges == other.edges
+            && self.transverse == other.transverse
+            && self.longitudinal == other.longitudinal
     }
 }
 
